@@ -72,6 +72,8 @@ impl Group for SessGroup {
             if rng.chance(1, 4) { if !opts.is_empty() { opts.push(' '); } opts.push_str("ss=foo:bar"); }
         }
         let mut lines = vec![reset_line("sess", role, &scheme, seed, &opts)];
+        let short = rng.chance(1, 5);
+        if short { lines.push(format!("sess shortw {}", rng.pick(&[1u32, 2, 7, 16, 33]))); }
         let nops = rng.range(4, 24);
         let mut handles = 0u64;
         for _ in 0..nops {
@@ -89,7 +91,7 @@ impl Group for SessGroup {
                     85 => "close".to_string(),
                     86 => "eof".to_string(),
                     87 => "rderr".to_string(),
-                    88..=89 => format!("budget {}", rng.below(4)),
+                    88..=89 => if short { "state".to_string() } else { format!("budget {}", rng.below(4)) },
                     90 => "budget none".to_string(),
                     91..=94 => format!("send {} {}", rng.below(handles + 1), hex_compact(&{ let n = rng.below(12) as usize; rng.bytes(n) })),
                     _ => format!("readx {} {}", rng.below(handles + 1), rng.range(1, 8)),
@@ -109,7 +111,7 @@ impl Group for SessGroup {
                     83 => "close".to_string(),
                     84 => "eof".to_string(),
                     85 => "rderr".to_string(),
-                    86..=87 => format!("budget {}", rng.below(3)),
+                    86..=87 => if short { "state".to_string() } else { format!("budget {}", rng.below(3)) },
                     88 => "budget none".to_string(),
                     89..=92 => format!("write {} {}", rng.pick(&SIDS), hex_compact(&{ let n = rng.below(20) as usize; rng.bytes(n) })),
                     93..=95 => format!("ctl {} {} -", rng.pick(&CMD_NAMES), rng.pick(&SIDS)),
